@@ -1,4 +1,5 @@
 import Anysystem.Props.C04
+import Anysystem.Proofs.R4
 #print axioms Anysystem.snapshot_first_offered
 #print axioms Anysystem.snapshot_timers_in_firing_order
 #print axioms Anysystem.snapshotSource_complete
@@ -6,3 +7,8 @@ import Anysystem.Props.C04
 #print axioms Anysystem.C13_every_reduced_step_explored_partial
 #print axioms Anysystem.C03_ok_exhaustive_disabled
 #print axioms Anysystem.C03_evaluated_reachable
+#print axioms Anysystem.sim_step_refines_partial
+#print axioms Anysystem.timedRel_of_quiet
+#print axioms Anysystem.TimedRel.visible
+#print axioms Anysystem.popped_timer_unblocked
+#print axioms Anysystem.R4Demo.demo_step
